@@ -1,12 +1,21 @@
 // Generator of the C14 call sites (text/template). Run from /verif:
 //
-//	go run ./c14/gen            (writes /verif/c14/zz_*.go)
+//	go run ./c14/gen            (writes /verif/c14/zz_imports.go, rt/zz_support.go, sites/<group>/zz_<group>.go)
 //
 // For every (family, arity) member of the arity-indexed families of csgura/fp it emits one
-// generic call-site function `s_<member>[A1..An val](c *Cx)` holding the library call and,
+// generic call-site function `s_<member>[A1..An any](c *Cx)` holding the library call and,
 // next to it, the expected result written out position by position (never computed through
 // an arity-indexed library function), and one registration line that instantiates the site
 // with pairwise distinct types (T1..Tn) and with one common type (S..S).
+//
+// Values are created with rt.Mk / rt.MkY / rt.MkS and read back with rt.Rd, never by a
+// conversion, so that a site can be instantiated with any types: every site of a family whose
+// defining equation does not inspect the argument values gets a second registration line
+// (RegNil) that instantiates it with nil-able types spread over the positions (site.nilInst;
+// "nilable-types" instantiation, see ../rt/nilable.go and runNilCase in ../main.go) and, up to
+// four type parameters, a third one with zero-able types (site.zeroInst; "zero-types"). The type-class sites (tc_*) keep the string-kinded constraint rt.Val. The
+// registrations of the heaviest packages (arity-9 Chain builders) go to a sibling package
+// <group>_nil holding a copy of the site functions, so that both compile in parallel.
 //
 // Sites are two-phase: the construction (curried function, lifted function, builder, type-class
 // instance) is made when the site function is called, the observations are registered with
@@ -104,28 +113,70 @@ func (s *site) Con() string {
 
 func (s *site) TPS() string { return tpsC(s.TP, s.Con()) }
 
-// the palettes of the nilable-types instantiation: kind letter (rt.KindName) and Go type
+// The palettes of the two nil / zero instantiations: kind letter (rt.KindName) and Go type.
+//
+// nilable-types (every site with a RegNil line): nil-able kinds only, interface kinds at every
+// other slot. A nil interface is the strongest probe (it is nil for `any(v) == nil`, for
+// reflection-based nil checks such as option.Of and for zero-value checks alike), the other
+// nil-able kinds are nil for the reflection-based checks only.
+//
+// zero-types (sites with at most zeroMaxTP type parameters, where an instantiation is cheap; not the builders):
+// the kinds whose zero value is not nil.
 var (
-	paletteAny   = [][2]string{{"s", "PSlice"}, {"m", "PMap"}, {"p", "*PBox"}, {"f", "PFunc"}, {"e", "error"}, {"a", "any"}, {"i", "PIface"}, {"t", "PStruct"}, {"g", "PStr"}, {"n", "PInt"}, {"b", "PBool"}}
-	paletteNamed = [][2]string{{"s", "PSlice"}, {"m", "PMap"}, {"p", "*PBox"}, {"f", "PFunc"}, {"i", "PIface"}, {"t", "PStruct"}, {"g", "PStr"}, {"n", "PInt"}, {"b", "PBool"}}
+	palIface      = [][2]string{{"e", "error"}, {"a", "any"}, {"i", "PIface"}}
+	palIfaceNamed = [][2]string{{"i", "PIface"}}
+	palOther      = [][2]string{{"s", "PSlice"}, {"m", "PMap"}, {"p", "*PBox"}, {"f", "PFunc"}}
+	palZero       = [][2]string{{"t", "PStruct"}, {"g", "PStr"}, {"n", "PInt"}, {"b", "PBool"}}
 )
 
-// nilInst: the type arguments and the kind letters of the nilable-types instantiation of s.
-// Right-aligned like instT (position k of n takes palette entry 22-n+k, so the families that
-// recurse on the tail share instantiations across arities), rotated by a per-package offset
-// so that over the packages / families / arities every kind reaches every position.
-func (s *site) nilInst() (types, kinds string) {
-	pal := paletteAny
-	if s.Con() == "Named" {
-		pal = paletteNamed
-	}
+const zeroMaxTP = 3
+
+// hasZeroInst: the builders are left out (every arity is a tower of ApplicativeFunctor /
+// MonadChain instantiations; their plain-value method Ap only wraps the value with the monad's
+// unit, which the LiftA/Flap/Method families exercise with the zero-able kinds).
+func (s *site) hasZeroInst() bool { return s.TP <= zeroMaxTP && s.Tmpl != "m_builder" }
+
+func (s *site) fileOffset() int {
 	off := 0
 	for _, ch := range []byte(s.File + s.Family) {
 		off += int(ch)
 	}
+	return off
+}
+
+// nilInst: the type arguments and the kind letters of the nilable-types instantiation of s.
+// Slot of position k of n: 22-n+k (right-aligned like instT, so that the families that recurse
+// on the tail share instantiations across arities) + a per-package/family offset, + 1 from
+// arity 6 on. Counted from the front a position changes its slot with every arity; the shift
+// makes a position counted from the END change its kind too (arities 1..5 against 6 and more,
+// which share tails among themselves): interface and non-interface kinds reach every position
+// either way.
+func (s *site) nilInst() (types, kinds string) {
+	ifc := palIface
+	if s.Con() == "Named" {
+		ifc = palIfaceNamed
+	}
 	var ts []string
 	for k := 1; k <= s.TP; k++ {
-		e := pal[(22-s.TP+k+off)%len(pal)]
+		slot := 22 - s.TP + k + s.fileOffset()
+		if s.TP >= 6 {
+			slot++
+		}
+		e := palOther[(slot/2)%len(palOther)]
+		if slot%2 == 0 {
+			e = ifc[(slot/2)%len(ifc)]
+		}
+		ts = append(ts, e[1])
+		kinds += e[0]
+	}
+	return "[" + strings.Join(ts, ", ") + "]", kinds
+}
+
+// zeroInst: the zero-types instantiation (struct, string, int, bool rotating over the positions).
+func (s *site) zeroInst() (types, kinds string) {
+	var ts []string
+	for k := 1; k <= s.TP; k++ {
+		e := palZero[(k+s.TP+s.fileOffset())%len(palZero)]
 		ts = append(ts, e[1])
 		kinds += e[0]
 	}
@@ -1312,7 +1363,7 @@ func buildSites() []*site {
 }
 
 // nilChainArity: Chain arities below 9 that get a nilable-types instantiation all the same.
-var nilChainArity = map[int]bool{1: true, 2: true, 3: true, 4: true, 5: true}
+var nilChainArity = map[int]bool{1: true, 2: true, 3: true}
 
 // nilSibling: packages whose nilable-types registrations live in a sibling package <file>_nil
 // holding a copy of the site functions, so that the two instantiations compile in parallel
@@ -1439,7 +1490,7 @@ func main() {
 		}
 		return b
 	}
-	nnil := 0
+	nnil, nzero := 0, 0
 	for _, s := range sites {
 		if err := tm.ExecuteTemplate(buf(s.File), s.Tmpl, s); err != nil {
 			panic(fmt.Sprintf("%s: %v", s.Member, err))
@@ -1460,7 +1511,12 @@ func main() {
 			}
 		}
 		types, kinds := s.nilInst()
-		fmt.Fprintf(regs[nfile], "\tRegNil(%q, %q, %q, %d, %q, %s%s)\n", s.Family, s.Member, s.Sub, s.Pos, kinds, s.Fn(), types)
+		fmt.Fprintf(regs[nfile], "\tRegNil(%q, %q, %q, %q, %d, %q, %s%s)\n", "nilable-types", s.Family, s.Member, s.Sub, s.Pos, kinds, s.Fn(), types)
+		if s.hasZeroInst() {
+			types, kinds = s.zeroInst()
+			fmt.Fprintf(regs[nfile], "\tRegNil(%q, %q, %q, %q, %d, %q, %s%s)\n", "zero-types", s.Family, s.Member, s.Sub, s.Pos, kinds, s.Fn(), types)
+			nzero++
+		}
 	}
 	sort.Strings(order)
 	var imp strings.Builder
@@ -1472,5 +1528,5 @@ func main() {
 	}
 	imp.WriteString(")\n")
 	write(filepath.Join(*dir, "zz_imports.go"), imp.String())
-	fmt.Printf("generated %d call sites (%d with a nilable-types instantiation) in %d packages\n", len(sites), nnil, len(order))
+	fmt.Printf("generated %d call sites (%d with a nilable-types, %d with a zero-types instantiation) in %d packages\n", len(sites), nnil, nzero, len(order))
 }
